@@ -59,6 +59,9 @@ pub enum Ev {
     /// Each of the next n calls on the main instance is made from a destructor that runs while the
     /// thread unwinds from an unrelated panic (`std::thread::panicking()` is true inside the call).
     Unwinding { n: u8 },
+    /// Each of the next n calls on the main instance is made on a copy of the scanner that lives
+    /// at an address congruent to `offset` modulo 8 (and is copied back afterwards).
+    Misplaced { n: u8, offset: u8 },
     /// A message object that contradicts itself is fed to the main instance: its byte getters say
     /// `raw`, its `to_structured()` says `st`. No reference model can follow; nothing is judged
     /// until the next reset (after which everything must be as new) or restore.
@@ -89,6 +92,9 @@ pub struct Trace {
     /// what the process environment looks like to library code (see `simenv`): 0 = every variable
     /// unset, 1 = every variable "0", 2 = every variable "1", 3 = every variable empty
     pub env_mode: u8,
+    /// writes to stdout/stderr made by library code fail with EIO (see `simio`) instead of being
+    /// swallowed
+    pub stdio_fails: bool,
     pub events: Vec<Ev>,
 }
 
@@ -133,6 +139,7 @@ impl Ev {
             Ev::Restore => J::arr([J::s("restore")]),
             Ev::Hop { n } => J::arr([J::s("hop"), ji(*n)]),
             Ev::Unwinding { n } => J::arr([J::s("unwinding"), ji(*n)]),
+            Ev::Misplaced { n, offset } => J::arr([J::s("misplaced"), ji(*n), ji(*offset)]),
             Ev::Liar { raw, st, fickle } => J::arr([J::s("feed_liar"), ji(raw[0]), ji(raw[1]), ji(raw[2]), ji(st[0]), ji(st[1]), ji(st[2]), ji(*fickle as u8)]),
             Ev::FeedAbort { b, which } => J::arr([J::s("feed_abort"), ji(b[0]), ji(b[1]), ji(b[2]), ji(*which)]),
             Ev::Bulk { n, cycle } => J::arr([J::s("bulk"), ji(*n), J::arr(cycle.iter().map(|b| J::arr([ji(b[0]), ji(b[1]), ji(b[2])])))]),
@@ -196,6 +203,7 @@ impl Ev {
             "restore" => Ev::Restore,
             "hop" => Ev::Hop { n: n(1, 255)? as u8 },
             "unwinding" => Ev::Unwinding { n: n(1, 255)? as u8 },
+            "misplaced" => Ev::Misplaced { n: n(1, 255)? as u8, offset: n(2, 7)? as u8 },
             "feed_liar" => Ev::Liar { raw: [n(1, 255)? as u8, n(2, 255)? as u8, n(3, 255)? as u8], st: [n(4, 255)? as u8, n(5, 255)? as u8, n(6, 255)? as u8], fickle: a.len() > 7 && n(7, 1)? == 1 },
             "feed_abort" => Ev::FeedAbort { b: [n(1, 255)? as u8, n(2, 255)? as u8, n(3, 255)? as u8], which: n(4, 2)? as u8 },
             "bulk" => {
@@ -238,7 +246,7 @@ impl Ev {
 
 impl Trace {
     pub fn to_json(&self) -> J {
-        J::obj().set("timeout_ns", J::Str(self.timeout_ns.to_string())).set("read_step_ns", J::Str(self.read_step_ns.to_string())).set("ctor_default", J::Bool(self.ctor_default)).set("env_mode", J::u(self.env_mode as u64)).set("events", J::Arr(self.events.iter().map(|e| e.to_json()).collect()))
+        J::obj().set("timeout_ns", J::Str(self.timeout_ns.to_string())).set("read_step_ns", J::Str(self.read_step_ns.to_string())).set("ctor_default", J::Bool(self.ctor_default)).set("env_mode", J::u(self.env_mode as u64)).set("stdio_fails", J::Bool(self.stdio_fails)).set("events", J::Arr(self.events.iter().map(|e| e.to_json()).collect()))
     }
 
     pub fn from_json(j: &J) -> Result<Trace, String> {
@@ -268,7 +276,7 @@ impl Trace {
             }
             None => 0,
         };
-        Ok(Trace { timeout_ns: (t as u128).min(DUR_MAX_NS), read_step_ns: (rs as u128).min(DUR_MAX_NS), ctor_default, env_mode, events })
+        Ok(Trace { timeout_ns: (t as u128).min(DUR_MAX_NS), read_step_ns: (rs as u128).min(DUR_MAX_NS), ctor_default, env_mode, stdio_fails: matches!(j.get("stdio_fails"), Some(J::Bool(true))), events })
     }
 
     /// 64-bit FNV-1a over a canonical encoding; identifies a decision trace.
@@ -278,6 +286,7 @@ impl Trace {
         h.u128(self.read_step_ns);
         h.b(self.ctor_default as u8);
         h.b(self.env_mode);
+        h.b(self.stdio_fails as u8);
         for e in &self.events {
             match e {
                 Ev::EncCc14 { g, ch, cn, val, fac } => {
@@ -342,6 +351,11 @@ impl Trace {
                 Ev::Unwinding { n } => {
                     h.b(16);
                     h.b(*n);
+                }
+                Ev::Misplaced { n, offset } => {
+                    h.b(18);
+                    h.b(*n);
+                    h.b(*offset);
                 }
                 Ev::Liar { raw, st, fickle } => {
                     h.b(17);
